@@ -61,15 +61,15 @@ CLAIMED = {
         design="6/C20", technique="Coq proof (induction over the header list / write sequence) + differential execution over all codes and capacities",
         note="std Write for &mut [u8]/Vec and http::StatusCode::{as_str,canonical_reason} modelled; header name 'status' excluded (documented precondition, debug_assert)."),
     "C06": dict(
-        text="Proof (partial so far): Config::aligned_bufsize is modelled (64-bit usize, overflow arm included) and proved, for every configurable "
-             "size, to be >= the configured size, >= 24, a multiple of 8 and the least such value; the overflow arm is stated separately; a fresh "
-             "parser offers the whole effective buffer. The sufficiency clause (no StuckOnInput for pairs <= B-13 under every segmentation and "
-             "chunking) and the 'reported, never waited on' clause are stated in coq/Parser/ReqTargets.v (preamble_exact_stmt, parse_reported_stmt, "
-             "parse_stuck_stmt); their proofs are in progress and are added to Props/C06.v when complete - until then these two clauses are "
-             "decided by the correspondence check + oracle only (pairs of size B-13-d..B-4 at start/middle/end/across records, reads that exactly "
-             "fill the buffer, all b in 0..4096 / 0..2^20 for the alignment clause).",
-        design="6/C06", technique="Coq proof (arithmetic) for the effective-buffer clause; model-vs-crate differential execution + oracle for the stuck clauses (proofs pending)",
-        note="usize assumed 64-bit."),
+        text="Proof: (1) Config::aligned_bufsize (64-bit usize, overflow arm stated separately) is >= the configured size, >= 24, a multiple of 8 "
+             "and the least such value, for every size; (2) C06_sufficient: for EVERY well-formed preamble (any junk, cuts, paddings), buffer size, "
+             "trailing bytes and read schedule, if every pair satisfies |name|+|value|+13 <= effective buffer (and GetValues junk pairs fit) the "
+             "model never reaches StuckOnInput and ends Done; (3) C06_reported / C06_stuck_same_call: for every parser state and call, done=false "
+             "implies a non-empty input buffer, and an empty one is reported by that very call; a tightness witness (encoded pair of B+1 bytes "
+             "gets stuck) is included. Tie: bufsize for all b in 0..4096 (quick) / 0..2^20 (thorough), critical pairs of size B-13-d..B-4 at "
+             "start/middle/end/across records under greedy (exactly-filling), 1-byte and random reads.",
+        design="6/C06", technique="Coq proof (arithmetic; never-stuck via the 'unconsumed rest is a proper prefix of one unit' bound; exact drive additivity) + differential execution",
+        note="usize assumed 64-bit; sizes assumed < 2^62 (SIZE_LIMIT) to discharge checked_add arms."),
     "C18": dict(
         text="Proof (partial so far): cmp_input_streams and set_stream of src/parser/stream.rs are modelled at index level. Proved: the full comparison "
              "table and the full acceptance table over their finite domains (decided by vm_compute inside Coq and lifted, domain stated in the "
@@ -79,6 +79,50 @@ CLAIMED = {
              "correspondence check + oracle on scrambled stream orders with matching/foreign ids (proof pending: stream-parser invariant).",
         design="6/C18", technique="Coq proof (finite tables by vm_compute lifted with In-lemmas; set_stream by case analysis) + differential execution on scrambled stream orders",
         note="requested selections restricted to None/Stdin/Data: other record types hit a private debug_assert in debug builds (release rejects); recorded, not claimed."),
+    "C01": dict(
+        text="Proof: request::Parser (State machine, SkipState/GetValuesState/HeaderState/ParamsState drives, parse_buffered/parse_stream cross-record "
+             "reassembly, Parser::parse with buffer compaction and stuck detection) is modelled function by function in Gallina. C01_exact is proved "
+             "for every key-normalisation function, buffer size, well-formed preamble (any junk before BeginRequest, any id/role/flag byte, any cut of "
+             "the Params payload into records incl. inside a length prefix, any padding, any management / unknown-type / foreign-id / duplicate or foreign "
+             "BeginRequest records in between), pairs within the documented bound, trailing bytes and EVERY read schedule (incl. 0-byte calls): the run "
+             "ends Done with exactly id/role/flags and the insertion log of the pairs under normalised names, the owed replies as output, and "
+             "leftover++unfed = trailing. Lookup = last value wins (C01_lookup_*). Proof route: parse_buffered characterised against plain NV decoding "
+             "(S1-S4), exact additivity of the drive loop, schedule invariance, record-level simulation, never-stuck bound. Tie: differential execution "
+             "on generated preambles (every cut offset x paddings for boundary-length pairs, junk, 5 schedule styles, both build profiles) + an "
+             "independent Python oracle; the lossy-UTF-8 instance of norm is a transcription tied by its own case stream.",
+        design="6/C01", technique="Coq proof (exact drive additivity + parse_buffered characterisation + record-level simulation, all schedules) + differential execution with independent oracle",
+        note="HashMap modelled as insertion log (lookup = last match); CompactString::from_utf8_lossy is a theorem parameter (instance transcribed, tested); "
+             "case-insensitive key matching is C19's; sizes < 2^62."),
+    "C03": dict(
+        text="Proof (request parser complete, stream parser pending): for ANY byte string and ANY read schedule the request-parser model returns from "
+             "every call without panic or loop-bound exhaustion and keeps its invariant (C03_req_call_total, C03_req_total); any two schedules agree on "
+             "done/unfinished, output bytes, unread remainder and outcome incl. the specific fatal error and StuckOnInput (C03_req_chunk_invariant; the "
+             "over-strong exact-state variant is refuted with a witness and the normalisation [settle] made explicit); exact drive additivity; final "
+             "states are sticky with no further output. The stream-parser clauses (totality, invariants, prefix, error persistence) are decided by the "
+             "correspondence check + oracle and by lockstep checks of the abstract machine until their proofs (Parser/StreamSpec.v targets) complete. "
+             "Tie: mutated and random wires, >= 3 schedules per wire compared by a group oracle, all 256 type bytes, conversions at non-final states, "
+             "both build profiles (debug assertions and overflow checks on).",
+        design="6/C03", technique="Coq proof (totality by measure, exact additivity, schedule-invariance incl. uniqueness of the stuck point) + differential execution on hostile inputs with cross-schedule group oracle",
+        note="stream-parser part not yet proved (partial); allocation failure not modelled; sizes < 2^62."),
+    "C04": dict(
+        text="Proof (request parser complete, stream parser pending): reply_for is the specification of the owed reply per record and phase. "
+             "C04_req_record: every complete record at a record boundary is consumed entirely, emits exactly reply_for and moves the phase machine as "
+             "specified; C04_req_sequence: for any accepted record sequence the output is the concatenation of the owed replies in order; "
+             "C04_req_preamble_replies: under every chunking of a well-formed preamble. GetValues bodies split at any offset are covered through exact "
+             "drive additivity. Stream-parser replies (T_replies_stmt) are decided by correspondence + oracle + lockstep until proved. Tie: dense junk, "
+             "all 245 unknown types x positions x paddings, GetValues bodies with known/unknown/repeated/non-UTF-8/value-carrying names and incomplete "
+             "trailing pairs under 1-byte reads, abort mid-Params, consume_output(k) interleavings; oracle recomputes owed replies independently.",
+        design="6/C04", technique="Coq proof (record-level simulation of the state machine against the reply specification) + differential execution with independent reply oracle",
+        note="stream-parser part not yet proved (partial); unknown-type replies echo the received request id (as the crate's tests pin)."),
+    "C05": dict(
+        text="Proof (request-parser hand-offs complete; stream-parser hand-offs and the k-request chain pending): after any schedule over any bytes "
+             "fed = consumed ++ held ++ unfed (C05_leftover_req); into_request / into_stream_parser hand over exactly the held bytes; on well-formed "
+             "preambles the leftover is exactly the bytes after the preamble for every look-ahead (C05_leftover_exact). The chain property is decided "
+             "by the correspondence check (k = 1..4/8 requests on one buffer, reader policies never/mid/end, gated client) + oracle until proved. "
+             "Observation recorded in DESIGN.md: a stream parser told to skip (set_stream(None)) consumes a buffered next BeginRequest as a foreign one; "
+             "the property's hand-offs therefore assume the next request's bytes are not yet buffered (one-outstanding client).",
+        design="6/C05", technique="Coq proof (rest-is-suffix through drive/parse/schedule) + differential execution of conversion chains with gated client",
+        note="stream-parser part not yet proved (partial)."),
 }
 
 PENDING = {}
